@@ -8,6 +8,8 @@ import GeonumModel.Lemmas.ExactAdd
 import GeonumModel.Lemmas.SumMagFloat
 import GeonumModel.Lemmas.FloatMetric
 import GeonumModel.Spec.RoundWitness
+import GeonumModel.Lemmas.AddAngleInv
+import GeonumModel.Lemmas.FloatSumSpecial
 
 set_option linter.unusedSectionVars false
 set_option linter.unusedVariables false
@@ -321,6 +323,106 @@ theorem sub_mag_true {a b : Geonum F} (ha : a.angle.Inv) (hb : b.angle.Inv) (hma
     |val (a.sub b).mag - Geonum.euclid (val a.mag) (val b.mag) (Angle.Tpi a.angle) (Angle.Tpi b.angle)|
       ≤ (val a.mag + val b.mag) * (15 / 10 ^ 8) + 1 / 10 ^ 90 :=
   Geonum.sub_mag_true ha hb hma hmb h1 h2
+
+/-- product of the two distances of an inversion, with both roundings -/
+theorem invert_prod_real {r2 S I m ε τ : ℝ} (hr2 : 0 ≤ r2) (hm : 0 < m) (hε0 : 0 ≤ ε) (hε1 : ε ≤ 1) (hτ0 : 0 ≤ τ)
+    (hS : |S - r2| ≤ r2 * ε + τ) (hI : |I - S / m| ≤ |S / m| * ε + τ) :
+    |I * m - r2| ≤ r2 * (3 * ε) + (2 + m) * τ := by
+  have e : I * m - r2 = (I - S / m) * m + (S - r2) := by field_simp; ring
+  have hSabs : |S| ≤ r2 + r2 * ε + τ := by
+    have := abs_sub_abs_le_abs_sub S r2
+    rw [abs_of_nonneg hr2] at this; linarith
+  have h1 : |(I - S / m) * m| ≤ |S| * ε + τ * m := by
+    rw [abs_mul, abs_of_pos hm]
+    have : |I - S / m| * m ≤ (|S / m| * ε + τ) * m := mul_le_mul_of_nonneg_right hI (le_of_lt hm)
+    have e2 : (|S / m| * ε + τ) * m = |S| * ε + τ * m := by
+      rw [abs_div, abs_of_pos hm]; field_simp
+    rw [e2] at this; exact this
+  have h2 : |S| * ε ≤ (r2 + r2 * ε + τ) * ε := mul_le_mul_of_nonneg_right hSabs hε0
+  have hεε : r2 * ε * ε ≤ r2 * ε := by
+    calc r2 * ε * ε ≤ r2 * ε * 1 := mul_le_mul_of_nonneg_left hε1 (mul_nonneg hr2 hε0)
+      _ = r2 * ε := mul_one _
+  have hτε : τ * ε ≤ τ := by
+    calc τ * ε ≤ τ * 1 := mul_le_mul_of_nonneg_left hε1 hτ0
+      _ = τ := mul_one _
+  have e3 : (r2 + r2 * ε + τ) * ε = r2 * ε + r2 * ε * ε + τ * ε := by ring
+  rw [e3] at h2
+  rw [e]
+  calc |(I - S / m) * m + (S - r2)| ≤ |(I - S / m) * m| + |S - r2| := abs_add_le _ _
+    _ ≤ (|S| * ε + τ * m) + (r2 * ε + τ) := add_le_add h1 hS
+    _ ≤ r2 * (3 * ε) + (2 + m) * τ := by nlinarith
+
+/-- (B) **circle inversion in rounded arithmetic**: for canonical `p`, `c` in the magnitude domain with an offset of magnitude at least
+    `1e-100` (the property's domain; the zero offset panics, `invertCircle_spec`), a radius up to `1e70` and an inverted offset that stays
+    in the magnitude domain, the inversion returns `p' = c + io` where `io` lies on the ray of the computed offset `o = p − c` (its angle
+    field is the offset's), the product of the two distances is the squared radius — `|io|·|o| = r²` within `3·2⁻⁵³` relative — the offset is
+    placed at the Cartesian difference of `p` and `c`, and `p'` at the Cartesian sum of `c` and `io`, both within the every-branch bound -/
+theorem invertCircle_float {p c : Geonum F} {r : F} (hp : p.angle.Inv) (hc : c.angle.Inv) (hmp : p.MagDom) (hmc : c.MagDom)
+    (hr : Fin r) (hrb : |val r| ≤ 10 ^ 70) (hcb : p.angle.blade + c.angle.blade + 2 ≤ 2 ^ 39)
+    (hm : 1 / 10 ^ 100 ≤ val (p.sub c).mag)
+    (hio : (⟨fdiv (fmul r r) (p.sub c).mag, (p.sub c).angle⟩ : Geonum F).MagDom)
+    (hcb2 : c.angle.blade + (p.sub c).angle.blade ≤ 2 ^ 39) :
+    ∃ p' io : Geonum F, p.invertCircle c r = some p' ∧ p' = c.add io ∧ io.angle = (p.sub c).angle ∧
+      |val io.mag * val (p.sub c).mag - val r * val r| ≤ val r * val r * (3 * (1 / 2 ^ 53)) + (2 + val (p.sub c).mag) * (1 / 2 ^ 1075) ∧
+      |val (p.sub c).mag * Real.cos (Angle.Tpi (p.sub c).angle) + val c.mag * Real.cos (Angle.Tpi c.angle)
+          - val p.mag * Real.cos (Angle.Tpi p.angle)|
+        ≤ (val p.mag + val c.mag) * (2 / 10 ^ 7 + 11 / 10 * (val (e10 : F)
+            + (40 * ((p.angle.blade + c.angle.blade + 2 : ℕ) : ℝ) + 170) * (1 / 2 ^ 53))) + 1 / 10 ^ 28 + 2 * val (e10 : F) ∧
+      |val p'.mag * Real.cos (Angle.Tpi p'.angle)
+          - (val c.mag * Real.cos (Angle.Tpi c.angle) + val io.mag * Real.cos (Angle.Tpi io.angle))|
+        ≤ (val c.mag + val io.mag) * (2 / 10 ^ 7 + 11 / 10 * (val (e10 : F)
+            + (40 * ((c.angle.blade + io.angle.blade : ℕ) : ℝ) + 170) * (1 / 2 ^ 53))) + 1 / 10 ^ 28 + 2 * val (e10 : F) ∧
+      |val p'.mag * Real.sin (Angle.Tpi p'.angle)
+          - (val c.mag * Real.sin (Angle.Tpi c.angle) + val io.mag * Real.sin (Angle.Tpi io.angle))|
+        ≤ (val c.mag + val io.mag) * (2 / 10 ^ 7 + 11 / 10 * (val (e10 : F)
+            + (40 * ((c.angle.blade + io.angle.blade : ℕ) : ℝ) + 170) * (1 / 2 ^ 53))) + 1 / 10 ^ 28 + 2 * val (e10 : F) := by
+  -- the offset: canonical, finite, positive
+  have hn := negate_spec hc
+  have hninv : c.negate.angle.Inv := inv_of_spec hc hn.2
+  have hcb' : p.angle.blade + c.negate.angle.blade ≤ 2 ^ 39 := by
+    show p.angle.blade + c.angle.negate.blade ≤ 2 ^ 39
+    rw [hn.1]; omega
+  have hoinv : (p.sub c).angle.Inv := Geonum.add_angle_inv hp hninv hmp (show c.negate.MagDom from hmc) hcb'
+  obtain ⟨hfo, ho0⟩ : Fin (p.sub c).mag ∧ 0 ≤ val (p.sub c).mag := Geonum.add_mag_ok' hmp (show c.negate.MagDom from hmc) hp hninv
+  have hmpos : 0 < val (p.sub c).mag := lt_of_lt_of_le (by positivity) hm
+  have hoff : feq (p.sub c).mag zero = false := by
+    rw [Bool.eq_false_iff]; intro h
+    have := (feq_spec hfo (fin_zero (F := F))).mp h
+    rw [val_zero] at this; linarith
+  refine ⟨c.add ⟨fdiv (fmul r r) (p.sub c).mag, (p.sub c).angle⟩, ⟨fdiv (fmul r r) (p.sub c).mag, (p.sub c).angle⟩,
+    (invertCircle_spec p c r).2 hoff, rfl, rfl, ?_, ?_, ?_⟩
+  · -- the product of the distances
+    have hr2 : 0 ≤ val r * val r := mul_self_nonneg _
+    have hr2b : |val r * val r| ≤ 10 ^ 140 := by
+      rw [abs_mul]
+      calc |val r| * |val r| ≤ 10 ^ 70 * 10 ^ 70 := mul_le_mul hrb hrb (abs_nonneg _) (by positivity)
+        _ = 10 ^ 140 := by rw [← pow_add]
+    obtain ⟨hfS, hvS⟩ := fmul_spec hr hr (inRange_of_le (le_trans hr2b (pow_le_pow_right₀ (by norm_num) (by norm_num))))
+    have hS : |val (fmul r r) - val r * val r| ≤ val r * val r * (1 / 2 ^ 53) + 1 / 2 ^ 1075 := by
+      rw [hvS]; have := rnd_err (F := F) (val r * val r)
+      rwa [abs_of_nonneg hr2, div_eq_mul_one_div] at this
+    have hSb : |val (fmul r r)| ≤ 2 * 10 ^ 140 + 1 := by
+      have := abs_sub_abs_le_abs_sub (val (fmul r r)) (val r * val r)
+      have h53 : val r * val r * (1 / 2 ^ 53) ≤ val r * val r * 1 := mul_le_mul_of_nonneg_left (by norm_num) hr2
+      have hτ : (1:ℝ) / 2 ^ 1075 ≤ 1 := by rw [div_le_one (by positivity)]; exact one_le_pow₀ (by norm_num)
+      rw [abs_of_nonneg hr2] at hr2b this
+      linarith
+    have hin : InRange (F := F) (val (fmul r r) / val (p.sub c).mag) := inRange_of_le (by
+      rw [abs_div, abs_of_pos hmpos, div_le_iff₀ hmpos]
+      have h1 : (2:ℝ) * 10 ^ 140 + 1 ≤ 10 ^ 250 * (1 / 10 ^ 100) := by
+        have e : (10:ℝ) ^ 250 * (1 / 10 ^ 100) = 10 ^ 150 := by
+          rw [show (250:ℕ) = 150 + 100 by norm_num, pow_add]; field_simp
+        rw [e]; norm_num
+      have h2 : (10:ℝ) ^ 250 * (1 / 10 ^ 100) ≤ 10 ^ 250 * val (p.sub c).mag := mul_le_mul_of_nonneg_left hm (by positivity)
+      linarith)
+    obtain ⟨_, hvI⟩ := fdiv_spec hfS hfo (ne_of_gt hmpos) hin
+    have hI : |val (fdiv (fmul r r) (p.sub c).mag) - val (fmul r r) / val (p.sub c).mag|
+        ≤ |val (fmul r r) / val (p.sub c).mag| * (1 / 2 ^ 53) + 1 / 2 ^ 1075 := by
+      rw [hvI]; have := rnd_err (F := F) (val (fmul r r) / val (p.sub c).mag)
+      rwa [div_eq_mul_one_div (|val (fmul r r) / val (p.sub c).mag|)] at this
+    exact invert_prod_real hr2 hmpos (by positivity) (by norm_num) (by positivity) hS hI
+  · exact (Geonum.sub_cartesian_every_branch_float hp hc hmp hmc hcb).1
+  · exact Geonum.sum_cartesian_every_branch_float (b := ⟨fdiv (fmul r r) (p.sub c).mag, (p.sub c).angle⟩) hc hoinv hmc hio hcb2
 
 end B
 
